@@ -225,6 +225,36 @@ def controlling_switches_(body, bb):
     return controlling_switches(body, bb)
 
 
+def data_number_classifier(ck, F, P):
+    """Shared with C08 (INPUT replies go through the same parser)."""
+    # numbers: an unquoted item is a number exactly when str::parse::<f64> accepts it -- the renderer writes numbers
+    # with f64's Display (to_string), whose output parse::<f64> always accepts (std round trip, trusted), so ANY extra
+    # condition on the number arm makes some rendered number reload as a string
+    from lib import controlling_switches, expr_has_field
+    pe = F.one("DataParser::push_current_element")
+    if pe is None:
+        ck.missing("%s:DATA-NUMBER:classifier" % P, "DataParser::push_current_element")
+    else:
+        nums = list(aggregates(pe, "data::DataElement", "Number"))
+        ck.floor("%s.DataElement::Number construction sites in the DATA parser" % P, len(nums), 1)
+        for (bb, i, pl, rv, sp) in nums:
+            src = pe.expr(rv["ops"][0])
+            from_parse = any(x[1].endswith("<impl str>::parse") for x in expr_calls(src))
+            extra = []
+            for (sb, subj, names) in controlling_switches(pe, bb):
+                cs = [x[1] for x in expr_calls(subj)]
+                if any(x.endswith("<impl str>::parse") for x in cs) and names and set(names.values()) == {"Ok", "Err"}:
+                    continue
+                if expr_has_field(subj, "state"):
+                    continue
+                extra.append(show(subj)[:100])
+            ck.require(from_parse and not extra, "%s:DATA-NUMBER:classifier" % P, "DATA renderer vs parser",
+                       "an unquoted item is a number iff parse::<f64>() accepts it (the only other condition is the quote state)",
+                       "the DATA parser classifies an unquoted item as a number under an extra condition (%s; payload from parse: %s): "
+                       "a number the renderer prints with f64's Display (e.g. `inf` for an overflowing item) reloads as a string" %
+                       (extra, from_parse), sp)
+
+
 def data_inverse(ck, F):
     rd = F.one("data::data_elements_to_string::{closure#0}") or F.one("data_elements_to_string::{closure#0}")
     pc = F.one("DataParser::parse_char")
@@ -330,32 +360,8 @@ def data_inverse(ck, F):
                    "inside a quoted item the quote character is never appended (it ends the item)",
                    "the DATA parser can now store a double quote inside a quoted item: rendering such an item raw no longer "
                    "re-parses to the same item", pc.span)
-    # numbers: an unquoted item is a number exactly when str::parse::<f64> accepts it -- the renderer writes numbers
-    # with f64's Display (to_string), whose output parse::<f64> always accepts (std round trip, trusted), so ANY extra
-    # condition on the number arm makes some rendered number reload as a string
-    from lib import controlling_switches, expr_has_field
-    pe = F.one("DataParser::push_current_element")
-    if pe is None:
-        ck.missing("C14:DATA-NUMBER:classifier", "DataParser::push_current_element")
-    else:
-        nums = list(aggregates(pe, "data::DataElement", "Number"))
-        ck.floor("C14.DataElement::Number construction sites in the DATA parser", len(nums), 1)
-        for (bb, i, pl, rv, sp) in nums:
-            src = pe.expr(rv["ops"][0])
-            from_parse = any(x[1].endswith("<impl str>::parse") for x in expr_calls(src))
-            extra = []
-            for (sb, subj, names) in controlling_switches(pe, bb):
-                cs = [x[1] for x in expr_calls(subj)]
-                if any(x.endswith("<impl str>::parse") for x in cs) and names and set(names.values()) == {"Ok", "Err"}:
-                    continue
-                if expr_has_field(subj, "state"):
-                    continue
-                extra.append(show(subj)[:100])
-            ck.require(from_parse and not extra, "C14:DATA-NUMBER:classifier", "DATA renderer vs parser",
-                       "an unquoted item is a number iff parse::<f64>() accepts it (the only other condition is the quote state)",
-                       "the DATA parser classifies an unquoted item as a number under an extra condition (%s; payload from parse: %s): "
-                       "a number the renderer prints with f64's Display (e.g. `inf` for an overflowing item) reloads as a string" %
-                       (extra, from_parse), sp)
+    data_number_classifier(ck, F, "C14")
+    if F.one("DataParser::push_current_element") is not None:
         rn = [c for c in rd.calls() if c.callee.endswith("ToString>::to_string")]
         ck.require(len(rn) >= 1, "C14:DATA-NUMBER:renderer", "DATA renderer vs parser", "numbers are rendered with f64's to_string()",
                    "the DATA renderer no longer writes numbers with f64's Display", rd.span)
